@@ -3,7 +3,7 @@ _c09_q = {"rep_programs": 5000, "bkrep_programs_depth1": 8000, "bkrep_programs_d
           "lc_last_position_sequences": 20000, "counter_values_compared": 800000, "repc_sequences_compared": 500,
           "sto_rst_pairs_in_loop": 100000, "flat_unrolled_compared": 10000, "two_word_last_instruction": 20000,
           "rep_form_imm8": 1500, "rep_form_reg": 1500, "rep_form_r6": 1500, "bkrep_form_imm8": 15000, "bkrep_form_reg": 15000,
-          "bkrep_form_r6": 15000, "rep_counts": 44, "bkrep_counts": 44, "count_registers": 20, "nt": 400}
+          "bkrep_form_r6": 15000, "rep_target_is_last_block_instruction": 2000, "rep_counts": 44, "bkrep_counts": 44, "count_registers": 20, "nt": 400}
 _c09_sets = ("rep_counts", "bkrep_counts", "count_registers", "nt")
 _c09_t = {k: (v if k in _c09_sets else v * 30) for k, v in _c09_q.items()}
 PROPS["C09"] = dict(
